@@ -450,10 +450,11 @@ pub fn record_c09(a: &Args) -> usize {
 
 /// show / load-next against a sign that stays in progress for a long time (polling is not bounded by the protocol),
 /// and bus errors of every kind at every step of a cooperative conversation.
-pub fn record_directed_ctl(a: &Args, out: &mut TraceOut) -> Value {
+pub fn record_directed_ctl(a: &Args, out: &mut TraceOut, long_polls: bool) -> Value {
     let thorough = a.tier == "thorough";
     let mut runs = 0usize;
-    let polls: Vec<usize> = if thorough { vec![0, 1, 50, 299, 300, 301, 1000, 20_000] } else { vec![0, 3, 299, 300, 301, 1200] };
+    // (the C11 monitor evaluates whole-conversation predicates, which is quadratic in the length: it gets at most 1200 polls)
+    let polls: Vec<usize> = if thorough && long_polls { vec![0, 1, 50, 299, 300, 301, 1000, 20_000] } else { vec![0, 3, 299, 300, 301, 1200] };
     for (k, &n) in polls.iter().enumerate() {
         for name in ["show", "load"] {
             out.balance();
@@ -539,7 +540,7 @@ pub fn record_directed_ctl(a: &Args, out: &mut TraceOut) -> Value {
 
 pub fn record_c10(a: &Args) -> usize {
     let mut out = TraceOut::new(&a.out, "C10", a.shards);
-    let d = record_directed_ctl(a, &mut out);
+    let d = record_directed_ctl(a, &mut out, true);
     println!("INFO {}", json!({"directed": d}));
     let adv = record_adversarial(a, &mut out, 0xC10, if a.tier == "thorough" { 40_000 } else { 2_000 });
     let mut small = Args { tier: "quick".into(), seed: a.seed, out: a.out.clone(), shards: a.shards, rest: vec![] };
@@ -552,7 +553,7 @@ pub fn record_c10(a: &Args) -> usize {
 pub fn record_c11(a: &Args) -> usize {
     let mut out = TraceOut::new(&a.out, "C11", a.shards);
     let adv = record_adversarial(a, &mut out, 0xC11, if a.tier == "thorough" { 40_000 } else { 2_000 });
-    let d = record_directed_ctl(a, &mut out);
+    let d = record_directed_ctl(a, &mut out, false);
     println!("INFO {}", json!({"adversarial": adv, "directed": d}));
     out.finish()
 }
